@@ -180,8 +180,13 @@ pub fn op_new(a: &[&str]) -> String {
     match construct(instr, rest) {
         None => "bad-op".into(),
         Some(Ok(b)) => format!("ok:{}", hex(&b[..ctx_len(instr)])),
-        Some(Err(e)) => format!("err #{}", e),
+        Some(Err(e)) => refusal(&e),
     }
+}
+
+/// a sigma-proof constructor refuses an unsatisfied witness with the inconsistent-input error and no other (C20)
+fn refusal(e: &str) -> String {
+    if e == "InconsistentInput" { format!("err #{}", e) } else { format!("wrong-error-kind:{}", e.replace(' ', "_")) }
 }
 
 pub fn op_prove(a: &[&str]) -> String {
@@ -189,7 +194,7 @@ pub fn op_prove(a: &[&str]) -> String {
     match construct(instr, rest) {
         None => "bad-op".into(),
         Some(Ok(b)) => format!("emit:!A verify {} {}", instr, hex(&b)),
-        Some(Err(e)) => format!("err #{}", e),
+        Some(Err(e)) => refusal(&e),
     }
 }
 
